@@ -38,6 +38,9 @@ pub mod c19;
 #[path = "gen/c19.rs"]
 pub mod c19g;
 
+#[cfg(feature = "c20")]
+pub mod c20;
+
 #[cfg(feature = "replay")]
 #[cfg(kani)]
 mod replay_active;
